@@ -131,79 +131,87 @@ class Check:
 
     def _explore_parallel(self, name, run_one, on_end, st, jobs):
         """depth-first exploration by re-execution is embarrassingly parallel: explore sequentially until enough unexplored
-        decision prefixes are queued, then hand disjoint sets of prefixes to forked workers and merge what they found"""
+        decision prefixes are queued, hand disjoint sets of prefixes to forked workers, merge what they found.  Sub-trees
+        differ wildly in size, so workers run in rounds of a bounded time slice and hand back the prefixes they did not get
+        to; these are redistributed in the next round."""
         import pickle
         eng = self.eng
         eng.explore(run_one, on_end, label=name, stop_when_pending=4 * jobs, bfs=True)
         todo = list(eng.pending)
         eng.pending = []
-        if not todo:
-            return
-        chunks = [todo[i::jobs] for i in range(jobs)]
-        chunks = [c for c in chunks if c]
-        kids = []
-        base = {'cand': len(self.candidates), 'samples': len(self.samples), 'inc': len(self.inconclusive)}
-        for c in chunks:
-            r, w = os.pipe()
-            pid = os.fork()
-            if pid == 0:
-                os.close(r)
-                rc = 0
+        slice_s = float(os.environ.get('VERIF_SLICE_S', '5'))
+        rounds = 0
+        while todo:
+            rounds += 1
+            chunks = [todo[i::jobs] for i in range(jobs)]
+            chunks = [c for c in chunks if c]
+            todo = []
+            kids = []
+            base = {'cand': len(self.candidates), 'samples': len(self.samples), 'inc': len(self.inconclusive)}
+            for c in chunks:
+                r, w = os.pipe()
+                pid = os.fork()
+                if pid == 0:
+                    os.close(r)
+                    rc = 0
+                    try:
+                        for k in eng.stats:
+                            eng.stats[k] = 0
+                        outcomes0 = dict(st['outcomes'])
+                        failed0 = st['failed']
+                        eng.explore(run_one, on_end, label=name, pending=c, deadline=time.time() + slice_s)
+                        out = {'stats': eng.stats, 'entered': eng.entered, 'used': eng.used_summaries,
+                               'outcomes': {k: v - outcomes0.get(k, 0) for k, v in st['outcomes'].items()},
+                               'failed': st['failed'] - failed0,
+                               'cands': jsonable(self.candidates[base['cand']:][:200]), 'ncands': len(self.candidates) - base['cand'],
+                               'samples': jsonable(self.samples[base['samples']:]), 'inc': self.inconclusive[base['inc']:][:50],
+                               'witness': dict(self.witness), 'fork_sites': eng.fork_sites, 'leftover': list(eng.pending)}
+                        data = pickle.dumps(out)
+                    except BaseException as e:
+                        data = pickle.dumps({'error': '%s: %s' % (type(e).__name__, e), 'tb': traceback.format_exc()})
+                        rc = 1
+                    with os.fdopen(w, 'wb') as fh:
+                        fh.write(data)
+                    os._exit(rc)
+                os.close(w)
+                kids.append((pid, r))
+            for pid, r in kids:
+                with os.fdopen(r, 'rb') as fh:
+                    data = fh.read()
+                os.waitpid(pid, 0)
                 try:
-                    for k in eng.stats:
-                        eng.stats[k] = 0
-                    outcomes0 = dict(st['outcomes'])
-                    failed0 = st['failed']
-                    eng.explore(run_one, on_end, label=name, pending=c)
-                    out = {'stats': eng.stats, 'entered': eng.entered, 'used': eng.used_summaries,
-                           'outcomes': {k: v - outcomes0.get(k, 0) for k, v in st['outcomes'].items()},
-                           'failed': st['failed'] - failed0,
-                           'cands': jsonable(self.candidates[base['cand']:][:200]), 'ncands': len(self.candidates) - base['cand'],
-                           'samples': jsonable(self.samples[base['samples']:]), 'inc': self.inconclusive[base['inc']:][:50],
-                           'witness': dict(self.witness), 'fork_sites': eng.fork_sites}
-                    data = pickle.dumps(out)
-                except BaseException as e:
-                    data = pickle.dumps({'error': '%s: %s' % (type(e).__name__, e), 'tb': traceback.format_exc()})
-                    rc = 1
-                with os.fdopen(w, 'wb') as fh:
-                    fh.write(data)
-                os._exit(rc)
-            os.close(w)
-            kids.append((pid, r))
-        for pid, r in kids:
-            with os.fdopen(r, 'rb') as fh:
-                data = fh.read()
-            os.waitpid(pid, 0)
-            try:
-                out = pickle.loads(data)
-            except Exception as e:
-                self.inconclusive.append('%s: worker produced no result (%s)' % (name, e))
-                continue
-            if 'error' in out:
-                self.inconclusive.append('%s: worker failed: %s' % (name, out['error']))
-                log(out.get('tb', ''))
-                continue
-            for k, v in out['stats'].items():
-                if k == 'max_query_s':
-                    eng.stats[k] = max(eng.stats[k], v)
-                else:
-                    eng.stats[k] += v
-            eng.entered |= out['entered']
-            eng.used_summaries |= out['used']
-            for k, v in out['outcomes'].items():
-                st['outcomes'][k] += v
-            st['failed'] += out['failed']
-            self.candidates.extend(out['cands'])
-            if len(self.samples) < 12:
-                self.samples.extend(out['samples'][:2])
-            self.inconclusive.extend(out['inc'])
-            for k, v in out['witness'].items():
-                if v:
-                    self.witness[k] = True
-                else:
-                    self.witness.setdefault(k, False)
-            for k, v in out['fork_sites'].items():
-                eng.fork_sites[k] = eng.fork_sites.get(k, 0) + v
+                    out = pickle.loads(data)
+                except Exception as e:
+                    self.inconclusive.append('%s: worker produced no result (%s)' % (name, e))
+                    continue
+                if 'error' in out:
+                    self.inconclusive.append('%s: worker failed: %s' % (name, out['error']))
+                    log(out.get('tb', ''))
+                    continue
+                todo.extend(out.get('leftover', []))
+                for k, v in out['stats'].items():
+                    if k == 'max_query_s':
+                        eng.stats[k] = max(eng.stats[k], v)
+                    else:
+                        eng.stats[k] += v
+                eng.entered |= out['entered']
+                eng.used_summaries |= out['used']
+                for k, v in out['outcomes'].items():
+                    st['outcomes'][k] += v
+                st['failed'] += out['failed']
+                self.candidates.extend(out['cands'])
+                if len(self.samples) < 12:
+                    self.samples.extend(out['samples'][:2])
+                self.inconclusive.extend(out['inc'])
+                for k, v in out['witness'].items():
+                    if v:
+                        self.witness[k] = True
+                    else:
+                        self.witness.setdefault(k, False)
+                for k, v in out['fork_sites'].items():
+                    eng.fork_sites[k] = eng.fork_sites.get(k, 0) + v
+            # grow the slice a little so that very large explorations do not pay the fork overhead too often
+            slice_s = min(slice_s * 1.5, 120.0)
 
     def model_values(self, path, terms):
         """concrete values for z3 terms under the path condition (for witnesses)"""
